@@ -61,7 +61,7 @@ LEVEL_TEXT = ("Exploration: thousands of generated surface calculations per run 
               "every surface in every row is re-evaluated in Python. Not a proof: compositions, surfaces and options are sampled.")
 FLOORS = {"quick": 300, "thorough": 3000}
 SHARDS = {"quick": 4, "thorough": 4}      # DEVELOPMENT (shared machine): set back to 8/16
-BUDGET = {"quick": 500, "thorough": 1500, "replay": 1}
+BUDGET = {"quick": 500, "thorough": 3000, "replay": 1}
 
 DATABASES = [("phreeqc.dat", 3), ("wateq4f.dat", 2), ("minteq.v4.dat", 2)]
 MODELS = ["no_edl", "ddl", "ddl", "dl_bw", "donnan", "donnan", "ccm", "cdmusic", "cdmusic", "cdmusic_donnan"]
@@ -134,13 +134,6 @@ def user_db(text):
     return _UDB[text]
 
 
-def site_of(elements, sites):
-    for e in elements:
-        if e in sites:
-            return e
-    return None
-
-
 def surface_name(site):
     return site.split("_")[0]
 
@@ -148,6 +141,11 @@ def surface_name(site):
 # ----------------------------------------------------------------------------------------------- generator
 def _r(x, d=4):
     return float("%.*g" % (d, x))
+
+
+def uni2(lo, hi):
+    """uniform, two decimals (no denormal left-overs in the generated text)"""
+    return st.floats(lo, hi, allow_nan=False).map(lambda x: round(x, 2) + 0.0)
 
 
 def _zs(z):
@@ -184,7 +182,7 @@ def user_surface_st(draw, inf, name, cd, cations, anions):
                 return None
             form = draw(st.integers(0, 3))
             dz2 = draw(st.sampled_from([0.0, 0.0, 0.0, 0.2, -0.25]))
-            dz0 = _r(draw(st.floats(-1.0, 1.5)), 2) if draw(st.booleans()) else float(round(dz_total))
+            dz0 = round(draw(st.floats(-1.0, 1.5)), 2) + 0.0 if draw(st.booleans()) else float(round(dz_total))
             dz1 = dz_total - dz0 - dz2
             if form == 0:
                 # five-number form: n1 + f*zc = dz0, n2 + (1-f)*zc = dz1
@@ -195,18 +193,17 @@ def user_surface_st(draw, inf, name, cd, cations, anions):
 
         # identity
         sp.append({"eq": "%s = %s" % (master, master), "log_k": 0.0, "cd": [0, 0, 0, 0, 0] if cd else None})
-        hb = "H" if body == "OH" else ""          # hydrogen on the master group
         # protonation
         lk1 = draw(cg.uni(4.0, 10.0, 3))
         prot = site + ("OH2" if body == "OH" else "OH") + _zs(zM + 1)
         sp.append({"eq": "%s + H+ = %s" % (master, prot), "log_k": lk1, "cd": cdnum(1.0),
-                   "dh": draw(st.sampled_from([None, None, _r(draw(st.floats(-60.0, 20.0)), 3)]))})
+                   "dh": draw(st.sampled_from([None, None, round(draw(st.floats(-60.0, 20.0)), 1) + 0.0]))})
         have_deprot = body == "OH"
         if have_deprot:
             lk2 = -draw(cg.uni(6.0, 11.5, 3))
             dep = site + "O" + _zs(zM - 1)
             sp.append({"eq": "%s = %s + H+" % (master, dep), "log_k": lk2, "cd": cdnum(-1.0),
-                       "dh": draw(st.sampled_from([None, None, _r(draw(st.floats(-10.0, 60.0)), 3)]))})
+                       "dh": draw(st.sampled_from([None, None, round(draw(st.floats(-10.0, 60.0)), 1) + 0.0]))})
         used = {master, prot}
         for el in cations:
             ms = db.master[el].species
@@ -217,12 +214,12 @@ def user_surface_st(draw, inf, name, cd, cations, anions):
                     nm = site + "O" + mbody + _zs(zM + zc - 1)
                     eq = "%s + %s = %s + H+" % (master, ms, nm)
                     dz = zc - 1
-                    lk = draw(cg.uni(-5.0, 4.0, 3))
+                    lk = draw(uni2(-5.0, 4.0))
                 elif kd == "bi" and body == "OH":
                     nm = "(" + site + "O)2" + mbody + _zs(2 * zM + zc - 2)
                     eq = "2%s + %s = %s + 2H+" % (master, ms, nm)
                     dz = zc - 2
-                    lk = draw(cg.uni(-9.0, 1.0, 3))
+                    lk = draw(uni2(-9.0, 1.0))
                 elif kd == "hydroxo" and body == "OH":
                     nm = site + "O" + mbody + "OH" + _zs(zM + zc - 2)
                     eq = "%s + %s + H2O = %s + 2H+" % (master, ms, nm)
@@ -237,7 +234,7 @@ def user_surface_st(draw, inf, name, cd, cations, anions):
                     continue
                 used.add(nm)
                 sp.append({"eq": eq, "log_k": lk, "cd": cdnum(float(dz)),
-                           "dh": draw(st.sampled_from([None, None, None, _r(draw(st.floats(-40.0, 40.0)), 3)]))})
+                           "dh": draw(st.sampled_from([None, None, None, round(draw(st.floats(-40.0, 40.0)), 1) + 0.0]))})
         for el in anions:
             ms = db.master[dbparse.norm_element(el)].species
             abody, za = F.split_charge(ms)
@@ -269,18 +266,16 @@ def user_surface_st(draw, inf, name, cd, cations, anions):
                 nm = pb + "Cl" + _zs(pz - 1)
                 eq = "%s + Cl- = %s" % (prot, nm)
                 dz = -1.0
-                src = prot
             elif have_deprot:
                 pb, pz = F.split_charge(dep)
                 nm = pb + "Na" + _zs(pz + 1)
                 eq = "%s + Na+ = %s" % (dep, nm)
                 dz = 1.0
-                src = dep
             else:
                 nm = None
             if nm and nm not in used:
                 used.add(nm)
-                sp.append({"eq": eq, "log_k": draw(cg.uni(-1.5, 2.5, 3)), "cd": cdnum(dz)})
+                sp.append({"eq": eq, "log_k": draw(uni2(-1.5, 2.5)), "cd": cdnum(dz)})
         sites.append({"site": site, "master": master, "z": zM, "species": sp})
     return {"name": name, "sites": sites}
 
@@ -444,6 +439,10 @@ def case_st(draw):
     if draw(st.integers(0, 2)) == 0 and not (rel and rel["kind"] == "kinetic"):
         ok = [r for r in REACTANTS if all(e in inf.elem_ok for e in F.elements(r))]
         case["reaction"] = {"formula": draw(st.sampled_from(ok)), "moles": draw(cg.logu(1e-6, 3e-3, 3)), "steps": draw(st.integers(1, 3))}
+    # a second simulation that re-uses the SAVEd surface (and solution, phases) under a further REACTION
+    if draw(st.integers(0, 3)) == 0 and not (rel and rel["kind"] == "kinetic"):
+        ok = [r for r in REACTANTS if all(e in inf.elem_ok for e in F.elements(r))]
+        case["second"] = {"formula": draw(st.sampled_from(ok)), "moles": draw(cg.logu(1e-6, 3e-3, 3)), "steps": draw(st.integers(1, 2))}
     return case
 
 
@@ -523,8 +522,9 @@ def case_elements(inf, case):
     els = set()
     for c in case["sol"]["comps"]:
         els.add(dbparse.base_element(dbparse.norm_element(c[0])))
-    if case.get("reaction"):
-        els |= set(F.elements(case["reaction"]["formula"]))
+    for k in ("reaction", "second"):
+        if case.get(k):
+            els |= set(F.elements(case[k]["formula"]))
     if case.get("rel"):
         ph = inf.db.phase(case["rel"]["phase"])
         els |= set(ph.elements)
@@ -650,15 +650,18 @@ def build_input(case):
     up.insert(1, " -headings " + " ".join("u%d" % i for i in range(nhead)))
     up.append(" -end")
     P.append("\n".join(up))
+    sec = case.get("second")
+    if sec:
+        P.append("SAVE solution 2\nSAVE surface 2" + ("\nSAVE equilibrium_phases 2" if rel and rel["kind"] == "phase" else ""))
     P.append("END")
+    if sec:
+        P.append("USE solution 2\nUSE surface 2" + ("\nUSE equilibrium_phases 2" if rel and rel["kind"] == "phase" else ""))
+        P.append("REACTION 2\n %s 1\n %s moles in %d steps" % (sec["formula"], cg.fmt(sec["moles"]), sec["steps"]))
+        P.append("END")
     return "\n".join(P) + "\n", items, {"M": M, "aq": aq, "NE": NE, "dlcols": dlcols, "els": els}
 
 
 # ----------------------------------------------------------------------------------------------- oracle
-def close(a, b, rel, abs_=0.0):
-    return abs(a - b) <= rel * max(abs(a), abs(b)) + abs_
-
-
 def present(x):
     return isinstance(x, (int, float)) and x == x and x > ABSENT
 
@@ -727,6 +730,8 @@ def check_case(case, ctx):
         classes.append("related=" + case["rel"]["kind"])
     if case.get("reaction"):
         classes.append("reaction_steps")
+    if case.get("second"):
+        classes.append("second_simulation_on_saved_surface")
     if S.get("oci"):
         classes.append("only_counter_ions")
     dl = S.get("dl")
@@ -940,22 +945,28 @@ def check_row(case, M, v, dls, state, kth, stats, where):
                 g0 = edl.grahame_sigma(psi[n][2], aq_ions, EPS, TK)
                 imb = sum(z * c for z, c in aq_ions)
                 pos = sum(abs(z) * c for z, c in aq_ions)
-                if abs(imb) <= 1e-12 * pos:
-                    cmp("sigma0+sigma1+sigma2 = Grahame(psi2)", tot, g0)
-                else:
-                    # bulk solution not electroneutral: bracket between no completion and a monovalent completing ion
-                    g1 = edl.grahame_sigma(psi[n][2], aq_ions + [(-1.0 if imb > 0 else 1.0, abs(imb))], EPS, TK)
+                # The textbook expression presumes an electroneutral bulk.  Even a rounding-level imbalance matters at very small
+                # potentials (its term is linear in psi, the electrolyte's quadratic), so the value is always bracketed between the
+                # expression as it stands and the one completed by a monovalent ion that restores electroneutrality.
+                g1 = edl.grahame_sigma(psi[n][2], aq_ions + [(-1.0 if imb > 0 else 1.0, abs(imb))], EPS, TK) if imb != 0 else g0
+                if abs(imb) > 1e-12 * pos:
                     stats["ev"].add("cd_music:bulk_not_neutral(bracket)")
-                    if g0 != g0 or g1 != g1:
-                        stats["ev"].add("cd_music:grahame_undefined_for_non_neutral_bulk(skipped)")
-                    else:
-                        lo, hi = min(g0, g1), max(g0, g1)
-                        stats["cp"] += 1
-                        tol = TOL_REL * max(abs(tot), abs(lo), abs(hi)) + floor
-                        if tot < lo - tol or tot > hi + tol:
-                            raise Violation("charge_potential", "%s: surface %s (cd_music): sigma0+sigma1+sigma2 = %r C/m2 is outside the "
-                                            "Grahame charge at psi2 = %r V: [%r, %r] (bulk imbalance %r eq/kgw)"
-                                            % (where, n, tot, psi[n][2], lo, hi, imb))
+                if g1 != g1:
+                    stats["ev"].add("cd_music:grahame_undefined(skipped)")
+                else:
+                    if g0 != g0:
+                        g0 = g1
+                    lo, hi = min(g0, g1), max(g0, g1)
+                    stats["cp"] += 1
+                    m = max(abs(tot), abs(lo), abs(hi))
+                    # (+ the resolution of the expression itself near zero potential, DESIGN 4.3)
+                    tol = TOL_REL * m + floor + edl.grahame_rounding_floor(aq_ions, EPS, TK)
+                    if m > 0:
+                        stats["worst_cp"] = max(stats["worst_cp"], max(0.0, max(lo - tot, tot - hi) - (tol - TOL_REL * m)) / m)
+                    if tot < lo - tol or tot > hi + tol:
+                        raise Violation("charge_potential", "%s: surface %s (cd_music): sigma0+sigma1+sigma2 = %r C/m2 from the species is "
+                                        "outside the Grahame charge at psi2 = %r V: [%r, %r] C/m2 (bulk imbalance %r eq/kgw); psi = %r, "
+                                        "eps_r = %r, TK = %r, area = %r m2" % (where, n, tot, psi[n][2], lo, hi, imb, psi[n], EPS, TK, area))
         # ---- (4) explicit diffuse layer
         if dl:
             qs = sum(q)
